@@ -75,8 +75,9 @@ def emit_with_edits(out: Out, src: str, relfile: str, lo: int, hi: int, edits: L
 
 
 class Extractor:
-    def __init__(self, repo: str, contracts_dir: str, prelude_dir: str, spec_dir: str, vacuity: bool = False):
+    def __init__(self, repo: str, contracts_dir: str, prelude_dir: str, spec_dir: str, vacuity: bool = False, force_external=None):
         self.vacuity = vacuity
+        self.force_external = dict(force_external or {})      # fn path -> reason: bodies Verus could not take on this tree (degraded run)
         self.repo = repo
         self.cs = ContractSet()
         self.cs.load_dir(contracts_dir)
@@ -726,7 +727,8 @@ class Extractor:
             return re.sub(r'%(\d)', lambda m: pnames[int(m.group(1)) - 1] if int(m.group(1)) <= len(pnames) else m.group(0), txt)
         self._subst = subst
         self._pnames = pnames
-        external = path in pol.external
+        forced = path in self.force_external and path not in pol.external
+        external = path in pol.external or forced
         edits = self.common_edits(ctx, toks, it.start, it.end)
         # visibility
         vis_end = kfn
@@ -788,8 +790,11 @@ class Extractor:
             btxt = ' '.join(t.text for t in it.toks)                                # tokens only: comments / layout do not matter
             bh = hashlib.sha256(btxt.encode()).hexdigest()
             exp = (self.cs.policy.external_sha or {}).get(path)
-            self.report['external_body'].append({'fn': path, 'reason': pol.external[path], 'file': relfile, 'line': it.line,
-                                                 'sha256': bh, 'expected': exp, 'unchanged': (exp == bh)})
+            if forced:
+                self.report.setdefault('degraded', []).append({'fn': path, 'reason': self.force_external[path], 'file': relfile, 'line': it.line})
+            else:
+                self.report['external_body'].append({'fn': path, 'reason': pol.external[path], 'file': relfile, 'line': it.line,
+                                                     'sha256': bh, 'expected': exp, 'unchanged': (exp == bh)})
         else:
             attrs.append('#[verifier::loop_isolation(false)]')
         # loops, proof injections (only meaningful when the body is verified)
@@ -814,7 +819,17 @@ class Extractor:
         self.out.fn_ranges.append(fr)
         self.out.add('\n', ('gen', 'nl'))
         loop_labels = [[cl.label, cl.src, 'invariant'] for c in contracts for ls in c.loops.values() for cl in (ls.invariant + ls.invariant_except_break + ls.ensures)]
-        self.report['fns'].append({'path': path, 'file': relfile, 'line': it.line, 'external': external,
+        calls = set()
+        for k_ in range(it.body_open, it.body_close):
+            t_ = toks[k_]
+            if t_.kind == 'ident' and k_ + 1 < len(toks) and toks[k_ + 1].text in ('(', '::') and (toks[k_ + 1].text == '(' or (k_ + 3 < len(toks) and toks[k_ + 2].text == '<')):
+                if k_ >= 2 and toks[k_ - 1].text == '::' and toks[k_ - 2].kind == 'ident':
+                    calls.add(toks[k_ - 2].text + '::' + t_.text)
+                elif k_ >= 1 and toks[k_ - 1].text == '.':
+                    calls.add('.' + t_.text)
+                else:
+                    calls.add(t_.text)
+        self.report['fns'].append({'path': path, 'file': relfile, 'line': it.line, 'external': external, 'calls': sorted(calls),
                                    'contracted': bool(contracts), 'props': props, 'module': ctx['mod'],
                                    'end_line': it.line + src.count('\n', it.start, it.end),
                                    'requires': [[cl.label, cl.src] for cl in reqs],
